@@ -509,8 +509,9 @@ def scenarios(tier, seed):
         out.append({"class": wc, "signal": r6.choice(["INT", "QUIT"]), "bind": r6.choice(["tcp", "unix"]), "graceful": 12,
                     "phases": [], "duration": "never", "during_boot": "reload", "import_ends": r6.choice([None, 0.5, 1.5])})
     for wc in (classes if tier == "thorough" else [r6.choice(classes)]):
-        out.append({"class": wc, "signal": "TERM", "bind": r6.choice(["tcp", "unix"]), "graceful": 3, "phases": [],
-                    "duration": "never", "during_boot": r6.choice(["start", "reload"]), "import_ends": r6.choice([None, 1.0])})
+        for when in (["start", "reload"] if tier == "thorough" else [r6.choice(["start", "reload"])]):
+            out.append({"class": wc, "signal": "TERM", "bind": r6.choice(["tcp", "unix"]), "graceful": 3, "phases": [],
+                        "duration": "never", "during_boot": when, "import_ends": r6.choice([None, 1.0])})
     if tier == "thorough":
         for s2 in range(5):
             r2 = rng_for(seed, "c04-thorough", s2)
